@@ -2,27 +2,29 @@ import MayVerif.Proof.Io.TT
 namespace MayVerif.Io
 
 set_option maxHeartbeats 16000000 in
-theorem inv5_kstep (st st' : St) (k : Kt) (pc : KPc) (e : Env) (h : Inv1 st) (h3 : Inv3 st) (h5 : Inv5 st)
+theorem inv5_kstep (st st' : St) (k : Kt) (pc : KPc) (e : Env) (hc : Cfg st) (h : Inv1 st) (h3 : Inv3 st) (h7 : Inv7 st) (h5 : Inv5 st)
     (hpc : st.kpc k = pc) (hs : kstep st k pc e = some st') : Inv5 st' := by
   prep5
   have hk0 := k0 k; have hlt := lt k; have hwt := wt k; have hlk := lk k; have hwk := wk k
-  have htk0 := tk0 k; have htk1 := tk1 k; have htk2 := tk2 k; have hhk := hk k
+  have htkd := tkd k; have htk1 := tk1 k; have htk2 := tk2 k; have hhk := hk k
   cases pc with
   | off => simp [kstep] at hs
-  | start s c r => simp [hpc, kTok, kHolds] at hk0 hlt hwt; crunch5
-  | set s c r t => simp [hpc, kTok, kHolds] at hk0 hlt hwt; crunch5
-  | store s c r => simp [hpc, kTok, kHolds] at hk0 hlt hwt; crunch5
-  | load s c r => crunch5
-  | take s => crunch5
-  | dis s c => simp [hpc, kTok, kHolds] at hlk hwk; crunch5
-  | reg s c => crunch5
-  | chk c => crunch5
-  | xor c => crunch5
-  | xio c => crunch5
-  | xtake s => crunch5
-  | reg0 s c r => simp [hpc, kTok, kHolds] at hk0 hlt hwt; crunch5
-  | chk2 s c => crunch5
-  | own s => crunch5
-  | ownDis s c => simp [hpc, kTok, kHolds] at hlk hwk; crunch5
+  | start s c r => simp [hpc, kTok, kHolds] at hk0 hlt hwt; c5
+  | arm s c r => simp [hpc, kTok, kHolds] at hk0 hlt hwt; c5
+  | set s c r t => simp [hpc, kTok, kHolds] at hk0 hlt hwt; c5
+  | store s c r => simp [hpc, kTok, kHolds] at hk0 hlt hwt; c5
+  | load s c r => c5
+  | take s => c5
+  | dis s c => simp [hpc, kTok, kHolds] at hlk hwk hhk; c5
+  | reg s c => c5
+  | chk c => c5
+  | xor c => c5
+  | xio c => c5
+  | xtake s => c5
+  | xDis s c => simp [hpc, kTok, kHolds] at hlk hwk hhk; c5
+  | reg0 s c r => simp [hpc, kTok, kHolds] at hk0 hlt hwt; c5
+  | chk2 s c => c5
+  | own s => c5
+  | ownDis s c => simp [hpc, kTok, kHolds] at hlk hwk hhk; c5
 
 end MayVerif.Io
